@@ -78,6 +78,35 @@ def gen(rng, tier):
         k = len(pairs) if (thorough and len(pairs) <= 2500) else min(len(pairs), 60)
         for a, b in (pairs if k == len(pairs) else rng.sample(pairs, k)):
             yield {"mode": True, "ops": [[rng.choice(["move", "copy"]), rfc6901_spell(a), rfc6901_spell(b)]], "doc": doc}
+    # move whose destination is only there once the source is gone (RFC 6902 4.4: remove at "from", then add at "path"):
+    # the destination is drawn from the paths of the document after the removal
+    shift_docs = [{"a": [5, 6, {}]}, [{"id": 0}, {"tags": {}}, {"meta": {}}], {"a": [5, {}], "b": 1}, [1, "s", [2], {"k": [3]}],
+                  {"x": {"y": 1}, "z": [[1], 2, [3, [4]]]}] + [d for d in DOCS if isinstance(d, list) and len(d) >= 2][:6]
+    for doc in shift_docs:
+        for a, _ in all_locs(doc):
+            if not a:
+                continue
+            d2 = deep(doc)
+            par = value_at(d2, a[:-1])
+            try:
+                del par[a[-1]]
+            except Exception:  # noqa: BLE001
+                continue
+            dests = [b for b in paths_for(d2) if b[:len(a)] != a]
+            for b in (dests if thorough or len(dests) <= 25 else rng.sample(dests, 25)):
+                yield {"mode": True, "ops": [["move", rfc6901_spell(a), rfc6901_spell(b)]], "doc": doc}
+    for _ in range(600 if thorough else 60):
+        doc = gen_container(rng, 3, 3, ["a", "b", "0", "1", "k"])
+        arrs = [(loc, n) for loc, n in all_locs(doc) if isinstance(n, list) and len(n) >= 2]
+        if not arrs:
+            continue
+        loc, n = rng.choice(arrs)
+        i = rng.randrange(len(n) - 1)
+        d2 = deep(doc)
+        del value_at(d2, loc)[i]
+        below = [b for b in paths_for(d2) if b[:len(loc)] == loc and len(b) > len(loc) + 1]
+        if below:
+            yield {"mode": True, "ops": [["add", "/k9", 1], ["move", rfc6901_spell(loc + [i]), rfc6901_spell(rng.choice(below))]], "doc": doc}
     # histories
     names = ["a", "b", "0", "1", "2", "-", "01", "", "~", "/", "é", "10"]
     for _ in range(6000 if thorough else 500):
